@@ -208,7 +208,12 @@ func (i *Iter) Advance() Type {
 		i.off++
 		i.cur = v & JSONVALUEMASK
 		if i.t == TagNop {
-			i.off += int(i.cur)
+			if i.cur <= 0 {
+				i.moveToEnd()
+				return TypeNone
+			}
+			// The skip count is relative to the nop itself.
+			i.off += int(i.cur) - 1
 			continue
 		}
 		break
@@ -310,7 +315,8 @@ func (i *Iter) AdvanceIter(dst *Iter) (Type, error) {
 			if i.cur <= 0 {
 				return TypeNone, errors.New("invalid nop skip")
 			}
-			i.off += int(i.cur)
+			// The skip count is relative to the nop itself.
+			i.off += int(i.cur) - 1
 			continue
 		}
 		break
